@@ -460,11 +460,61 @@ void h_overflow_detect_mt(void) {
     uint8_t v = nd_u8(); ASSUME(v != MI_DEBUG_PADDING);
     ((uint8_t*)blk(k))[req + off] = v;
   }
+  snapshot();
   mi_free(blk(k));
+  check_live_untouched((size_t)1 << k);          /* C02: a cross-thread free never changes the contents of another live block */
+  if (!tamper) {                                 /* the block handed to the owner still carries a valid padding record (the owner re-checks it) */
+    mi_padding_t* pad = (mi_padding_t*)((uint8_t*)blk(k) + (BS - MI_PADDING_SIZE));
+    CHECK(pad->canary == mi_ptr_encode_canary(&PG, blk(k), PG.keys), "padding canary of the freed block intact");
+    CHECK(pad->delta <= BS - MI_PADDING_SIZE - sizeof(mi_block_t) || pad->delta == delta, "C02/C17: after a cross-thread free the padding record leaves room for the delayed-free link");
+    CHECK(pad->delta == (req < sizeof(mi_block_t) ? BS - MI_PADDING_SIZE - sizeof(mi_block_t) : delta), "padding shrunk exactly to make room for the link (or untouched)");
+  }
   bool saw_efault = false; for (int i = 0; i < n_err && i < 4; i++) if (errs[i] == EFAULT) saw_efault = true;
   CHECK(n_delayed_mt == 1, "the block is handed to the owner's lists exactly once");
   if (tamper) { CHECK(saw_efault, "C17: an overflow past the requested size is reported (EFAULT) also when another thread frees the block"); WITNESS("tampered"); }
   else { CHECK(n_err == 0, "an intact block raises no error"); WITNESS("intact"); }
+}
+#endif
+
+#if defined(HARNESS_h_free_mt)
+/* C02: a cross-thread free (mi_free -> mi_free_generic_mt -> mi_free_block_mt) in every build flavour.  The push on the owner's
+   lists (mi_free_block_delayed_mt: C02.remote_free) is replaced by a stub that marks the hand-over and then lets "the owner"
+   reuse the block (its bytes become arbitrary).  After the hand-over the freeing thread may neither call into the segment
+   layer for that block nor write to the page area; it never writes the owner-only page fields; other live blocks keep
+   their contents. */
+static int n_delayed_mt, n_reset; static bool handed_over;
+static uint64_t SNAP2[(NBLK + 1) * WPB];
+void stub_free_block_delayed_mt(mi_page_t* page, mi_block_t* block) {
+  CHECK(page == &PG && in_area(block), "this page, a block of it"); n_delayed_mt++; handed_over = true;
+  size_t i = idx_of(block);
+  for (size_t j = 0; j < WPB; j++) AREAW[i * WPB + j] = nd_u64();            /* loop stub_free_block_delayed_mt.0: owner reuses the block */
+  for (size_t j = 0; j < (NBLK + 1) * WPB; j++) SNAP2[j] = AREAW[j];         /* loop stub_free_block_delayed_mt.1 */
+}
+long _mi_option_get_fast(mi_option_t o) { return nd_long(); }
+void _mi_segment_huge_page_reset(mi_segment_t* segment, mi_page_t* page, mi_block_t* block) { n_reset++; CHECK(!handed_over, "C02: the freeing thread does not touch a block after handing it to the owning thread"); }
+bool _mi_segment_attempt_reclaim(mi_heap_t* heap, mi_segment_t* segment) { CHECK(!handed_over, "no reclaim attempt after the hand-over"); return false; }    /* success path: C09/C15 lemmas */
+void h_free_mt(void) {
+  make_page(false, NBLK);
+  size_t k = nd_size(); ASSUME(k < NBLK && st[k] == LIVE);
+  PG.flags.x.has_aligned = 0;
+  SEGO.seg.thread_id = nd_bool() ? 0 : verif_tid_value + 1;          /* owned by another thread, or abandoned */
+  bool huge = nd_bool(); SEGO.seg.kind = huge ? MI_SEGMENT_HUGE : MI_SEGMENT_NORMAL;
+#if MI_PADDING
+  size_t req = nd_size(); ASSUME(req < BS - MI_PADDING_SIZE);
+  pad_live(k, req);
+#endif
+  snapshot();
+  mi_block_t* f0 = PG.free; mi_block_t* l0 = PG.local_free; uint16_t u0 = PG.used; uintptr_t x0 = PG.xthread_free;
+  mi_free(blk(k));
+  CHECK(n_err == 0, "an intact block raises no error");
+  CHECK(n_delayed_mt == 1, "C02: the block is handed to the owner exactly once");
+  CHECK(PG.free == f0 && PG.local_free == l0 && PG.used == u0 && PG.xthread_free == x0, "C02: a remote thread writes none of the owner's page fields (only the atomic hand-over, here stubbed)");
+  for (size_t j = 0; j < (NBLK + 1) * WPB; j++) CHECK(AREAW[j] == SNAP2[j], "C02: nothing in the page area is written after the hand-over (the owner may already have reused the block)");   /* loop h_free_mt.0 */
+  check_live_untouched((size_t)1 << k);
+#if !MI_HUGE_PAGE_ABANDON
+  if (huge) { CHECK(n_reset == 1, "huge block memory is reset once (before the hand-over)"); WITNESS("huge"); } else CHECK(n_reset == 0, "no reset for regular blocks");
+#endif
+  WITNESS("end");
 }
 #endif
 
